@@ -5,3 +5,4 @@ pub mod c09;
 pub mod c10;
 pub mod c16;
 pub mod c17;
+pub mod c18;
